@@ -25,3 +25,5 @@ pub open spec fn escape_positions(s: Seq<char>, n: int) -> Seq<usize> decreases 
 #[verifier::external_body]
 pub fn str_chars_vec(s: &str) -> (r: Vec<char>) ensures r@ == s@ { s.chars().collect() }
 pub axiom fn axiom_str_fits_usize(s: &str) ensures byte_len(s@) <= isize::MAX;
+// String::with_capacity(n): an empty string (std)
+pub assume_specification [String::with_capacity] (n: usize) -> (r: String) ensures r@ == Seq::<char>::empty();
